@@ -43,7 +43,8 @@ manifest = {
          'kind_free_text': 'repository-specific static analysis on Python ast: program model with C3 MRO (E0), path/effect '
                            'enumeration with exception edges (E1), alias/freshness (E2), axis-label typing (E3), bit-provenance '
                            'dataflow (E4), literal tables vs generated FIPS tables (E5), numba kernel rules (E6), registries (E7), '
-                           'validator rules (E8). No repository code is imported or executed.'},
+                           'validator rules (E8), partial evaluation of configuration code over its finite domain with cipher data opaque (E9), '
+                           'axis-layout interpretation over (rank, axis) configurations (E10). No repository code is imported or executed.'},
     ],
     'checks': checks,
     'not_applicable': na,
